@@ -13,10 +13,15 @@
      eb, et          empty blob, empty tree
      trees  t1, t2   similar trees (t2 = t1 plus an entry)
      cm, tg          a commit of t1 and an annotated tag of it
-     big    b1, b2   two similar blobs > 64 KiB (copy instructions split at 64 KiB)      *)
+     big    b1, b2   two similar blobs > 64 KiB (copy instructions split at 64 KiB)
+     huge   h1, h2   a 17 MiB blob and the same blob without its first 5 MiB (12 MiB): the shared run reaches beyond offset 16 MiB
+                     (copy instructions need the fourth offset byte); rendered lazily from a seeded
+                     generator, only in the memory source; enumerated apart from the family product
+                     because one encoding costs seconds                                             *)
 EXTENDS Integers, Sequences, FiniteSets, TLC, Json
 
 CONSTANTS Windows, Kinds, Sources,   \* option matrix
+          HugeWindows, HugeKinds,    \* option rows of the huge pair (empty sets: not enumerated)
           SelMod, SelSel,            \* family combinations whose index mod SelMod = SelSel are enumerated
           Emit
 
@@ -27,7 +32,9 @@ FamilyChoices == [chain |-> {"none", "two", "all"}, near |-> {"none", "all"}, eb
 
 Fams == [chain : FamilyChoices.chain, near : FamilyChoices.near, eb : FamilyChoices.eb, et : FamilyChoices.et,
          trees : FamilyChoices.trees, cm : FamilyChoices.cm, tg : FamilyChoices.tg, big : FamilyChoices.big,
-         dup : FamilyChoices.dup]
+         dup : FamilyChoices.dup, huge : {"none"}]
+HugeOnly == [chain |-> "none", near |-> "none", eb |-> "n", et |-> "n", trees |-> "none", cm |-> "n", tg |-> "n",
+             big |-> "none", dup |-> "none", huge |-> "pair"]
 
 \* mixed-radix index of a family combination (for the seeded selection)
 Idx(f) == LET a == IF f.chain = "none" THEN 0 ELSE IF f.chain = "two" THEN 1 ELSE 2
@@ -48,6 +55,7 @@ Base(f) ==
   \o (IF f.trees = "none" THEN <<>> ELSE IF f.trees = "one" THEN <<"t1">> ELSE <<"t1", "t2">>)
   \o (IF f.cm = "y" THEN <<"cm">> ELSE <<>>) \o (IF f.tg = "y" THEN <<"tg">> ELSE <<>>)
   \o (IF f.big = "none" THEN <<>> ELSE IF f.big = "one" THEN <<"b1">> ELSE <<"b1", "b2">>)
+  \o (IF f.huge = "pair" THEN <<"h1", "h2">> ELSE <<>>)
 
 \* the request sequence: repetitions are part of the request, not of the result
 Request(f) == LET b == Base(f) IN
@@ -59,8 +67,10 @@ Requested(f) == {Request(f)[i] : i \in 1..Len(Request(f))}
 
 VARIABLES sc
 SelFams == {f \in Fams : Base(f) # <<>> /\ Idx(f) % SelMod = SelSel}
-Init == \E f \in SelFams, w \in Windows, k \in Kinds, s \in Sources :
-          sc = [f |-> f, window |-> w, kind |-> k, src |-> s]
+Init == \/ \E f \in SelFams, w \in Windows, k \in Kinds, s \in Sources :
+             sc = [f |-> f, window |-> w, kind |-> k, src |-> s]
+        \/ \E w \in HugeWindows, k \in HugeKinds :
+             sc = [f |-> HugeOnly, window |-> w, kind |-> k, src |-> "memory"]
 Next == UNCHANGED sc
 
 Row == [req |-> Request(sc.f), want |-> Requested(sc.f), window |-> sc.window, kind |-> sc.kind, src |-> sc.src,
